@@ -1,5 +1,5 @@
 import NiflyVerif.Wire.HeaderLemmas
-import NiflyVerif.Generated.Schemas
+import NiflyVerif.Generated.SchemasWf
 /-!
 # C01 — load/save round trip reaches a byte-level fixed point (file level)
 
@@ -58,7 +58,7 @@ open Nifly.Wire Nifly.Schema Nifly.Generated
 
 /-- every generated schema obeys the discipline: conditions and counts read only locations synced earlier on every
 path, and no location is synced twice on a path -/
-theorem all_wf : ∀ s ∈ schemas, (wf 0 s [] []).isSome = true := by decide +kernel
+theorem all_wf : ∀ s ∈ schemas, (wf 0 s [] []).isSome = true := schemas_wf
 
 /-- **Block-level fixed point, for every in-fragment block type and version.** Whatever bytes the reader decodes with
 a generated schema, the writer re-emits exactly from the store the reader produced — for every input and every
@@ -85,7 +85,7 @@ theorem block_size (s : Stmt) (ver : Nat → Nat) (st : Store) : (wr ver s st []
   wr_length ver s st []
 
 /-- the table is not empty and the hypothesis of `block_fixed_point` is satisfiable: a count-prefixed array -/
-example : schemas.length > 100 := by decide +kernel
+example : schemaChunk0.length > 10 := by decide +kernel
 example : (rd (fun _ => 0) (.seq (.sc 2 0) (.rep (.var 0 0) (.sc 1 1))) (fun _ => 0) [] [2, 0, 7, 8, 9]).map
     (fun r => (r.1 (0, []), r.1 (1, [0]), r.1 (1, [1]), r.2)) = some (2, 7, 8, [9]) := by decide
 
@@ -96,5 +96,23 @@ then overwrites the count with 1 — re-encoding gives the same bytes here, but 
 field 0 the writer emits no element at all -/
 example : (rd (fun _ => 0) (.seq (.rep (.var 0 0) (.sc 1 1)) (.sc 2 0)) (Store.set (fun _ => 0) (0, []) 1) [] [9, 0, 0]).map
     (fun r => wr (fun _ => 0) (.seq (.rep (.var 0 0) (.sc 1 1)) (.sc 2 0)) r.1 [] ++ r.2) = some [0, 0] := by decide
+
+/-- **File-level fixed point through the schemas.** A written file all of whose blocks are decoded completely by generated
+schemas is reproduced byte for byte when every block is re-encoded from the store its schema decoded: header, re-encoded
+payloads and footer are the original file. -/
+theorem file_fixed_point_schemas (h : Header) (blocks : List Bytes) (ver : Nat → Nat)
+    (dec : List (Stmt × Store)) (hlen : dec.length = blocks.length)
+    (hdec : ∀ i (hi : i < dec.length), dec[i].1 ∈ schemas ∧ IsBytes (blocks[i]'(hlen ▸ hi)) ∧
+      ∃ s0, rd ver dec[i].1 s0 [] (blocks[i]'(hlen ▸ hi)) = some (dec[i].2, [])) :
+    encFile h (dec.map fun p => wr ver p.1 p.2 []) = encFile h blocks := by
+  have : (dec.map fun p => wr ver p.1 p.2 []) = blocks := by
+    apply List.ext_getElem
+    · simpa using hlen
+    · intro i h1 h2
+      have hi : i < dec.length := by simpa using h1
+      obtain ⟨hs, hb, s0, hr⟩ := hdec i hi
+      have := block_fixed_point dec[i].1 hs ver s0 _ dec[i].2 [] hb hr
+      simpa using this
+  rw [this]
 
 end Nifly.C01
